@@ -80,10 +80,8 @@ KeepT(T, la, lb) == T \in TypesA \/ H(la, lb, TSalt(T)) % TKeep = 0
 Ranks == (1..4) \X (1..4)
 PairPats == UNION { { [la |-> SubSeq(s, 1, r[1]), lb |-> SubSeq(s, r[1] + 1, r[1] + r[2])] : s \in RG(r[1] + r[2]) } : r \in Ranks }
 IsFull(p) == Len(p.la) <= FullRank /\ Len(p.lb) <= FullRank
-\* NOT OFFERED (no configuration compiles the call): is_generalised_matrix_matrix<I,J>::value, named by every einsum<I,J>(a,b)
-\* overload, evaluates match_indices_from_two_ends with ncontracted = (number of repeated labels INCLUDING those repeated inside
-\* one operand); when that exceeds what the two lists can match the constant expression indexes out of bounds
-\* (einsum_meta.h:602/603 "array subscript value is outside the bounds") -- see EinsumDispatch!Offered
+\* Every pattern is offered (EinsumDispatch!Offered holds for all of them since the no_trace repair; before it the patterns on
+\* which match_indices_from_two_ends indexed out of bounds, e.g. <0>,<1,0,1>, compiled in no configuration and were excluded here).
 KeptPats == { p \in PairPats : Offered(p.la, p.lb) /\ (IsFull(p) \/ H(p.la, p.lb, 1) % HiKeep = 0) }
 Variants(p) == IF IsFull(p) THEN {0} \cup (IF H(p.la, p.lb, 2) % V1Keep = 0 THEN {1} ELSE {}) ELSE {H(p.la, p.lb, 3) % 2}
 OneOf(S, h) == IF Cardinality(S) <= 1 THEN S ELSE {h % 2}
@@ -138,8 +136,7 @@ ExplicitIsPermuted ==
         perm == [n \in 1..Len(c.out) |-> CHOOSE m \in 1..Len(free) : free[m] = c.out[n]]
     IN /\ OutShape(ops, c.out) = PermShape(EinsteinShape(ops), perm)
        /\ EinsteinSumOut(ops, c.out, FALSE) = Permuted(EinsteinSum(ops, FALSE), EinsteinShape(ops), perm)
-\* L2 => L1 for the generated extents (EinsumDispatch), every vector setting; the two reported defect classes are exempted
-\* here (MC_EinsumDispatch checks the same obligation WITHOUT the exemption and documents the counterexample TLC finds)
+\* L2 => L1 for the generated extents (EinsumDispatch), scalar and SIMD build, no exemptions
 IsPairForm(x) == x.form \in {"einsum", "contraction", "explicit"}
 RouteOfCase(x) == RouteOf(x.form, x.la, x.lb)
 DispatchRefinesL1 ==
@@ -148,12 +145,10 @@ DispatchRefinesL1 ==
             want == EinsteinTerms(ops[1], ops[2])
         IN \A isa \in {"scalar", "sse2"} :
              LET V == VecStride(c.T, isa, c.la, c.lb, c.sb)
-             IN \/ DefectClass(r, c.T, isa, c.la, c.lb, c.sb) # ""
-                \/ (isa = "sse2" /\ V = 1)                         \* same obligation as the scalar build
+             IN \/ (isa = "sse2" /\ V = 1)                         \* same obligation as the scalar build
                 \/ RouteRefinesTo(want, r, ops[1], ops[2], V)
 
 Emit == PrintT(<<"PLAN", ToJson([form |-> c.form, T |-> c.T, la |-> c.la, lb |-> c.lb, sa |-> c.sa, sb |-> c.sb, out |-> c.out, v |-> c.v,
                                   route |-> IF IsPairForm(c) THEN RouteOfCase(c) ELSE c.form,
-                                  stride |-> IF IsPairForm(c) THEN VecStride(c.T, "sse2", c.la, c.lb, c.sb) ELSE 1,
-                                  defect |-> IF IsPairForm(c) THEN DefectClass(RouteOfCase(c), c.T, "sse2", c.la, c.lb, c.sb) ELSE ""])>>)
+                                  stride |-> IF IsPairForm(c) THEN VecStride(c.T, "sse2", c.la, c.lb, c.sb) ELSE 1])>>)
 =====================================================================================
